@@ -16,6 +16,8 @@ package main
 //	                   then the rest of the log over Replicate
 //	E  elected         a follower appends the whole log but applies only a prefix (lagging commit offset); it is
 //	                   then elected: BecomeLeader's applyAllEntriesIntoDB applies the rest
+//	CL lifecycle       c06_lifecycle.go: role events on the same / re-created controller objects (elected from a lagging DB,
+//	                   elected again with no write, writes, NewTerm only, failed election retried, role switch), dump after every step
 //	L  leader          a real LeaderController (replication factor 1) takes requests through WriteBlock /
 //	                   CreateSession / CloseSession; afterwards its own WAL (its offsets and timestamps) is
 //	                   replayed on a fresh kv.DB: the two databases must be identical
@@ -757,6 +759,7 @@ func c06ReplayCtlLog(o *hx.Out, t []string) {
 		c06RouteFollower(o, rng.Fork(), lg)
 		c06RouteFollowerSnapshot(o, rng.Fork(), lg)
 		c06RouteElected(o, rng.Fork(), lg)
+		c06RouteLifecycle(o, rng.Fork(), lg)
 	}
 }
 
@@ -776,6 +779,7 @@ func c06CtlMain(o *hx.Out, f hx.Flags) {
 		c06RouteFollower(o, crng.Fork(), lg)
 		c06RouteFollowerSnapshot(o, crng.Fork(), lg)
 		c06RouteElected(o, crng.Fork(), lg)
+		c06RouteLifecycle(o, crng.Fork(), lg)
 		c06RouteLeader(o, crng.Fork(), lg.shard, lg.term, lg.en)
 		c06RouteLeaderCancel(o, crng.Fork(), lg.shard, lg.term, lg.en)
 	}
